@@ -39,7 +39,7 @@ REQUIRED_MONITORS = ("openapi.emit.observed", "openapi_bulk.observed", "refs.res
 ASSUMPTIONS = ["a $ref is resolved as a JSON pointer inside the same document",
                "Create -> POST on the collection path; Read -> GET and Delete -> DELETE on the item path"]
 SINGLE = ("Config", "Node", "Edge", "Thing", "Widget", "A", "X", "Ab", "T2")  # (incl. the shortest legal names)
-MULTI = ("FooBar", "UserProfile", "OrderLine")
+MULTI = ("FooBar", "UserProfile", "OrderLine", "BodyPart", "Antibody", "ParamSet", "RefBody")  # (names that contain the suffixes the generator itself appends: Body, Param)
 TABLEISH = ("alpha_beta", "user_account_tbl", "setting_tbl")
 
 
